@@ -14,6 +14,12 @@ def custom_def(name, m):
     from orquestra.quantum.circuits import CustomGateDefinition
 
     key = name
+    if key not in _CUSTOM and name.endswith("x"):
+        # exact algebraic entries: (a + b w + c w^2 + d w^3) / 2^k with w = (-1)^(1/4) - sympy keeps the odd powers of w as
+        # powers of -1, i.e. complex numbers in whose expression the imaginary unit does not occur
+        w = sympy.Integer(-1) ** sympy.Rational(1, 4)
+        sm = sympy.Matrix([[(e[0] + e[1] * w + e[2] * w**2 + e[3] * w**3) / sympy.Integer(2) ** e[4] for e in row] for row in m])
+        _CUSTOM[key] = CustomGateDefinition(gate_name=name, matrix=sm, params_ordering=())
     if key not in _CUSTOM:
         a = mat(m)
         sm = sympy.Matrix([[complex(a[r, c]) for c in range(a.shape[1])] for r in range(a.shape[0])])
